@@ -3,6 +3,7 @@
 from __future__ import annotations
 
 import pickle
+import sys
 from typing import Any
 
 from hypothesis import strategies as st
@@ -133,6 +134,19 @@ class C12(Prop):
                 for tag in ("include", "render"):
                     yield {"kind": "src", "src": "[{% " + tag + " " + lit + " %}]{% " + tag + " " + lit + ", a: 1 %}",
                            "templates": quoted, "data": [{}]}
+
+        # integer literals at the int-to-str conversion limit: str() writes every digit, and what the parser
+        # accepted in exponent spelling must still be accepted digit by digit, sign included
+        lim = getattr(sys, "get_int_max_str_digits", lambda: 4300)() or 4300
+        for sign in ("", "-"):
+            lits = [sign + "1e" + str(n) for n in range(lim - 3, lim + 2)]
+            lits += [sign + "9" * k for k in (lim - 1, lim, lim + 1)]
+            lits += [sign + "12e" + str(lim - 2), sign + "12e" + str(lim - 3), sign + "1" + "0" * (lim - 1)]
+            for lit in lits:
+                for src in ("{{ LIT }}", "{% assign x = LIT %}{{ x | size }}", "{% if LIT != 0 %}a{% endif %}",
+                            "{{ 1 | plus: LIT | size }}", "{% for i in (LIT..LIT) %}{{ forloop.length }}{% endfor %}",
+                            "{{ a[LIT] }}|", "{% liquid echo LIT | size %}"):
+                    yield {"kind": "src", "src": src.replace("LIT", lit), "templates": {}, "data": [{"a": [1]}]}
 
     def budget_s(self, tier: str) -> float:
         return 240 if tier == "quick" else 3000
